@@ -793,6 +793,45 @@ def spec_reply(is_reply, req, allow, rreq, reav):
     return 'apply'
 
 
+def spec_receive_qualifiers(is_reply, req, eav, allow, rreq, reav):
+    """dbus-daemon(1), eavesdrop attribute on receive rules: an <allow> with eavesdrop="false" (default) does
+    not apply to messages the connection is merely eavesdropping; with eavesdrop="true" it applies always.  A
+    <deny> with eavesdrop="true" applies only to eavesdropped messages; with "false" it applies always.  Then
+    the requested_reply logic of spec_reply()."""
+    if eav and allow and not reav:
+        return 'skip'
+    if (not eav) and (not allow) and reav:
+        return 'skip'
+    return spec_reply(is_reply, req, allow, rreq, reav)
+
+
+def c06_6c(ck, prog):
+    r = ck.rule('C06.6c', 'the eavesdrop + requested-reply qualifier logic of check_can_receive equals the '
+                'documented semantics for all 64 assignments', 'DEC',
+                breaks='an eavesdropper receives messages its policy only allows to addressed recipients', floor=64)
+    fn = prog.fn(*EVALS['receive'])
+    t = qualifier_table(fn, 'receive')
+    names = ('is_reply', 'requested_reply', 'eavesdropping', 'rule.allow', 'rule.requested_reply', 'rule.eavesdrop')
+    for a, got in sorted(t.items()):
+        want = spec_receive_qualifiers(*a)
+        key = 'receive:%s' % ''.join(map(str, a))
+        if got == want:
+            r.ok(key, dict(zip(names, a), verdict=got))
+        else:
+            r.violation(key, fn.name, fn.file, fn.line,
+                        'for %s check_can_receive decides "%s"; documented semantics: "%s"' % (
+                            dict(zip(names, a)), got, want))
+    # eavesdropping is derived from addressed != proposed recipient and the message having a destination
+    defs = [rhs for b, i, ev in fn.events() for lhs, how, rhs in written_lvalues(ev)
+            if is_ref(lhs, 'eavesdropping') and rhs is not None]
+    okd = defs and all('addressed_recipient' in estr(d) and 'proposed_recipient' in estr(d) for d in defs)
+    if okd:
+        r.ok('receive:eavesdropping-definition')
+    else:
+        r.violation('receive:eavesdropping-definition', fn.name, fn.file, fn.line,
+                    'eavesdropping is no longer addressed_recipient != proposed_recipient (&& has destination)')
+
+
 def c06_6(ck, prog):
     r = ck.rule('C06.6', 'the requested-reply logic of check_can_send and check_can_receive is the same '
                 'boolean function, and equals the documented table (all 32 assignments enumerated)', 'DEC',
@@ -834,3 +873,4 @@ def run(ck):
         c06_5(ck, prog)
         c06_6(ck, prog)
         c06_6b(ck, prog)
+        c06_6c(ck, prog)
